@@ -220,9 +220,29 @@ def r1(ctx, rep):
     # (end-of-input, unknown-symbol and retry behaviour are decided by the end-to-end fold C13.R6, not by statement shapes)
 
 
+def _implies(test, polarity, atom):
+    "does `test` evaluating to `polarity` imply that the expression with text `atom` is true?"
+    if astq.u(test) == atom:
+        return polarity
+    if isinstance(test, ast.UnaryOp) and isinstance(test.op, ast.Not):
+        return _implies(test.operand, not polarity, atom)
+    if isinstance(test, ast.BoolOp):
+        if isinstance(test.op, ast.And) and polarity:
+            return any(_implies(v, True, atom) for v in test.values)
+        if isinstance(test.op, ast.Or) and not polarity:
+            return any(_implies(v, False, atom) for v in test.values)
+    return False
+
+
 def _is_store_guard(g):
-    return any(('not isinstance(self.predicates, Predicates)' in t and not p) or
-               ('isinstance(self.predicates, Predicates)' in t and 'not isinstance' not in t and p) for t, p in g)
+    out = False
+    for t, p in g:
+        try:
+            e = ast.parse(t, mode='eval').body
+        except SyntaxError:
+            continue
+        out = out or _implies(e, p, 'isinstance(self.predicates, Predicates)')
+    return out
 
 
 def store_guarded(m, qn, fn, node, seen):
